@@ -84,6 +84,41 @@ def periodsIntersect (p1 p2 : Option Period) : Bool :=
     decide (l1.compareTo u2 < 0) && decide (l2.compareTo u1 < 0)
   | _, _ => false
 
+/-- `AllTime()`, `PeriodBetween(t1, t2)`, `PeriodBefore(t)`, `PeriodOnOrAfter(t)` (period.go); `none` is a
+Go `nil` timestamp. -/
+def allTime : Period := ⟨none, none⟩
+def periodBetween (t1 t2 : Option Ts) : Period := ⟨t1, t2⟩
+def periodBefore (t : Option Ts) : Period := ⟨none, t⟩
+def periodOnOrAfter (t : Option Ts) : Period := ⟨t, none⟩
+
+/-! ### Specification vocabulary: the order of cuts
+
+A cut is a position on the timeline between instants: `belowAll` before everything, `below t` just
+before `t`, `above t` just after `t`, `aboveAll` after everything.  Its key is
+`(class, seconds, nanos, side)` with class −1/0/1 and side 0 (below) / 1 (above); the specification of
+`CompareTo` is the sign of the lexicographic comparison of keys. -/
+
+def Cut.cls : Cut → Int
+  | .belowAll => -1
+  | .aboveAll => 1
+  | _ => 0
+def Cut.ksecs : Cut → Int
+  | .below t => t.secs
+  | .above t => t.secs
+  | _ => 0
+def Cut.knanos : Cut → Int
+  | .below t => t.nanos
+  | .above t => t.nanos
+  | _ => 0
+def Cut.side : Cut → Int
+  | .above _ => 1
+  | _ => 0
+
+/-- Strict lexicographic order of the keys. -/
+def Cut.keyLt (a b : Cut) : Prop :=
+  a.cls < b.cls ∨ (a.cls = b.cls ∧ (a.ksecs < b.ksecs ∨ (a.ksecs = b.ksecs ∧
+    (a.knanos < b.knanos ∨ (a.knanos = b.knanos ∧ a.side < b.side)))))
+
 /-! ### Specification vocabulary: the timeline is ℤ nanoseconds -/
 
 /-- A timestamp is normalised when its nanos are in `[0, 10^9)` (what `timestamppb` calls valid). -/
@@ -115,6 +150,17 @@ def Period.Proper (p : Period) : Prop := optNormal p.start ∧ optNormal p.stop 
 
 /-- Bounds normalised and `start ≤ end` (possibly empty): the domain of `Connected`. -/
 def Period.Ordered (p : Period) : Prop := optNormal p.start ∧ optNormal p.stop ∧ bLe p.lo p.hi
+
+def Cut.Normal : Cut → Prop
+  | .below t => t.Normal
+  | .above t => t.Normal
+  | _ => True
+
+/-- Position of a value cut on the doubled ns timeline: `below t` at `2·t`, `above t` at `2·t + 1`. -/
+def Cut.pos : Cut → Int
+  | .below t => 2 * t.toNs
+  | .above t => 2 * t.toNs + 1
+  | _ => 0
 
 /-- The (possibly empty) interval `[x, y)` with `x ≤ y` is enclosed by `p`. -/
 def Period.Encloses (p : Period) (x y : Int) : Prop := lbLe p.lo x ∧ ubLe y p.hi
